@@ -179,6 +179,11 @@ fn exec(ctx: &mut RunCtx, w: &mut World, op: &Op) -> Step<()> {
             Ok(())
         }
         Op::ZeroFault => {
+            if w.cur.is_empty() {
+                // no peer-written file yet (a minimiser dropped it): nothing to read
+                ctx.outcome("zero_fault", "skipped", "");
+                return Ok(());
+            }
             let kind = w.kind.clone();
             ctx.probe("cases_evaluated");
             let got = match read_kind(&kind, &w.cur) {
